@@ -275,7 +275,9 @@ func (fx *FnExec) frameFormula(st *State, name string, cur Term, allowed map[str
 	isrt := arrayIndexSort(srt)
 	var conds []string
 	if isrt == "Int" {
-		conds = append(conds, "(<= q.f "+allocBound+")")
+		// locations that existed at entry: objects up to the watermark and the
+		// field addresses -(base*1024+k) of such objects
+		conds = append(conds, "(<= q.f "+allocBound+")", "(> q.f (- (* (+ "+allocBound+" 1) 1024)))")
 	}
 	if a != nil {
 		for _, ix := range a.idx {
